@@ -258,6 +258,18 @@ for _k, _t in TOP.items():
 
 ALL = ['C%02d' % i for i in range(1, 21)]
 
+# source tie: functions regenerated from the source text on every run and proved equal to the model (one module per property)
+import re as _re
+for _pid in list(CLAIMED):
+    _tf = os.path.join(VERIF, 'lean', 'PelProps', 'Tie%s.lean' % _pid)
+    if os.path.exists(_tf):
+        _src = _re.sub(r'/-.*?-/', '', open(_tf).read(), flags=_re.S)
+        _names = _re.findall(r'^\s*theorem\s+(\S+)', _src, _re.M)
+        CLAIMED[_pid]['text'] += (' Source tie (PelProps/Tie%s.lean, re-proved on every run): the functions that harness/trans_*.py regenerates from the CURRENT source text '
+                                  '(lean/PelGen/Gen*.lean) are proved equal to the model functions these theorems are about: %s; a function that leaves the translatable '
+                                  'subset is reported as TRANSLATION-UNAVAILABLE and is then tied by the correspondence run only.' % (_pid, ', '.join(_names)))
+        CLAIMED[_pid]['technique'] += ' + source-to-Lean translation tie (regenerated definitions proved equal to the model)'
+
 
 def main():
     checks = []
